@@ -562,6 +562,12 @@ def shrink(sc, binaries, case, errs=None):
                 cands += [dict(case, **{key: case[key][:i] + case[key][i + 1:]}) for i in range(len(case[key]))]
         if case["kind"] == "builder" and case.get("packets") and len(case.get("set_probes") or []) > 0:
             cands.append(dict(case, packets=[]))
+        if case["kind"] == "builder" and list(case.get("order") or []).count("install") > 1:
+            o = list(case["order"])
+            o.reverse()
+            o.remove("install")
+            o.reverse()
+            cands.append(dict(case, order=o))
         if case["kind"] != "set":
             key = lists[0]
             for j, it in enumerate(case[key]):
